@@ -4,7 +4,7 @@
    (cfg_repo, see [repo_cfg_known]); [cfg_guarded] = the decoder with the proposed element-budget + depth guard.
    Only property theorems live here: each is closed by [exact], pinned by [Check] and followed by [Print Assumptions]. *)
 From Coq Require Import List NArith ZArith.
-From Echo Require Import Base.Bytes Model.CborPA Proofs.CborPAProofs.
+From Echo Require Import Base.Bytes Model.CborPA Proofs.CborPAProofs Proofs.CborPASim Model.WscReadPA Proofs.WscReadPAProofs.
 Import ListNotations.
 Open Scope N_scope.
 
@@ -60,6 +60,19 @@ Check dec_depth_bounded : forall c b m,
   depth_max (dec_pa c b) <= m + 1.
 Print Assumptions dec_depth_bounded.
 
+(* The guard is transparent: whatever the unguarded decoder accepts without nesting deeper than the limit,
+   the guarded decoder accepts with the identical value (the patch cannot break a valid payload). *)
+Theorem guard_transparent : forall (b : bytes) v,
+  lenN b <= usize_max cfg_unguarded ->
+  result (dec_pa cfg_unguarded b) = Val v -> depth_max (dec_pa cfg_unguarded b) <= guard_depth ->
+  result (dec_pa cfg_guarded b) = Val v.
+Proof. exact guard_transparent_64. Qed.
+Check guard_transparent : forall (b : bytes) v,
+  lenN b <= usize_max cfg_unguarded ->
+  result (dec_pa cfg_unguarded b) = Val v -> depth_max (dec_pa cfg_unguarded b) <= guard_depth ->
+  result (dec_pa cfg_guarded b) = Val v.
+Print Assumptions guard_transparent.
+
 (* ---- REFUTED for the decoder as it is (cfg_unguarded); witnesses are replayed on /repo by the harness ---- *)
 
 Theorem dec_no_panic_refuted : exists b, result (dec_pa cfg_unguarded b) = Panic PCapacity.
@@ -88,6 +101,45 @@ Check dec_depth_bounded_refuted :
   exists b, lenN b = 2001 /\ depth_max (dec_pa cfg_unguarded b) = 2000.
 Print Assumptions dec_depth_bounded_refuted.
 
+(* ---- WSC snapshot reader: section range validation (wsc/read.rs read_bytes / read_slice) ---- *)
+
+(* For every offset/count (any u64, including lying ones) and every real buffer (len <= usize::MAX,
+   len < u64::MAX) neither function can reach a slice-index panic. *)
+Theorem wsc_read_no_panic : forall usize_max len base offset count elem align,
+  len <= usize_max -> len < u64_max -> 0 < elem ->
+  (forall p, read_bytes_pa usize_max len offset count <> RPanic p) /\
+  (forall p, read_slice_pa usize_max len base offset count elem align <> RPanic p).
+Proof. exact wsc_read_no_panic. Qed.
+Check wsc_read_no_panic : forall usize_max len base offset count elem align,
+  len <= usize_max -> len < u64_max -> 0 < elem ->
+  (forall p, read_bytes_pa usize_max len offset count <> RPanic p) /\
+  (forall p, read_slice_pa usize_max len base offset count elem align <> RPanic p).
+Print Assumptions wsc_read_no_panic.
+
+(* ... and an accepted section is exactly the requested range, inside the buffer and aligned. *)
+Theorem wsc_read_exact : forall usize_max len base offset count elem align,
+  len <= usize_max -> len < u64_max -> 0 < elem ->
+  read_slice_pa usize_max len base offset count elem align = RErrOob \/
+  read_slice_pa usize_max len base offset count elem align = RErrCast \/
+  (read_slice_pa usize_max len base offset count elem align = ROk offset (offset + count * elem) /\
+   offset + count * elem <= len /\ (base + offset) mod align = 0).
+Proof. exact read_slice_total. Qed.
+Check wsc_read_exact : forall usize_max len base offset count elem align,
+  len <= usize_max -> len < u64_max -> 0 < elem ->
+  read_slice_pa usize_max len base offset count elem align = RErrOob \/
+  read_slice_pa usize_max len base offset count elem align = RErrCast \/
+  (read_slice_pa usize_max len base offset count elem align = ROk offset (offset + count * elem) /\
+   offset + count * elem <= len /\ (base + offset) mod align = 0).
+Print Assumptions wsc_read_exact.
+
+Example wsc_read_nonvacuous :
+  read_slice_pa (2 ^ 64 - 1) 200 4096 16 2 16 8 = ROk 16 48 /\
+  read_slice_pa (2 ^ 64 - 1) 200 4096 4 1 16 8 = RErrCast /\
+  read_slice_pa (2 ^ 64 - 1) 200 4096 (2 ^ 64 - 1) 1 16 8 = RErrOob /\
+  read_slice_pa (2 ^ 64 - 1) 200 4096 8 (2 ^ 60) 16 8 = RErrOob /\
+  read_bytes_pa (2 ^ 32 - 1) 200 (2 ^ 32 + 1) 3 = RErrOob.
+Proof. repeat split; vm_compute; reflexivity. Qed.
+
 (* which configuration models /repo now (Model/CborPA.v: cfg_repo) *)
 Theorem repo_cfg_known : cfg_repo = cfg_unguarded \/ cfg_repo = cfg_guarded.
 Proof. exact repo_cfg_cases. Qed.
@@ -108,6 +160,8 @@ Example c13_nonvacuous :
   result (dec_pa cfg_guarded w_huge) = Err EIncomplete /\ alloc_peak (dec_pa cfg_guarded w_huge) = 0 /\
   (exists v, result (dec_pa cfg_guarded (nest 128)) = Val v) /\
   result (dec_pa cfg_guarded (nest 129)) = Err EDepth /\ depth_max (dec_pa cfg_guarded (nest 129)) = 129 /\
-  is_guarded cfg_guarded32 = true /\ size_entry * lenN b <= isize_max cfg_guarded32.
+  is_guarded cfg_guarded32 = true /\ size_entry * lenN b <= isize_max cfg_guarded32 /\
+  lenN b <= usize_max cfg_unguarded /\ result (dec_pa cfg_unguarded b) = result (dec_pa cfg_guarded b) /\
+  depth_max (dec_pa cfg_unguarded b) <= guard_depth.
 Proof. cbv zeta. repeat split; try (vm_compute; reflexivity); try (vm_compute; discriminate).
   eexists. vm_compute. reflexivity. Qed.
